@@ -1244,6 +1244,24 @@ func c06_7(c *core.Ctx, p *core.Prog) {
 		if named == nil || len(ctxFields(al.Type().(*types.Pointer).Elem())) == 0 {
 			return true
 		}
+		// the entry may be the received request's own contributor record, taken over as a whole (a struct parameter, or
+		// a copy of one) with only the count overwritten: context and channel are then the request's unless stored again
+		wholeFromItem, ctxStored, chStored := false, false, false
+		for _, r := range core.Referrers(al) {
+			if s, ok := r.(*ssa.Store); ok && s.Addr == ssa.Value(al) && core.DerivesFrom(s.Val, func(x ssa.Value) bool { return x == ssa.Value(item) }) {
+				wholeFromItem = true
+			}
+		}
+		defer func() {
+			if wholeFromItem {
+				if !ctxStored {
+					ctxOK = true
+				}
+				if !chStored {
+					chOK = true
+				}
+			}
+		}()
 		for _, r := range core.Referrers(al) {
 			fa, ok := r.(*ssa.FieldAddr)
 			if !ok {
@@ -1255,6 +1273,12 @@ func c06_7(c *core.Ctx, p *core.Prog) {
 					continue
 				}
 				fv := core.FieldVar(fa)
+				if isCtx(fv.Type()) {
+					ctxStored = true
+				}
+				if chanElem(fv.Type()) != nil {
+					chStored = true
+				}
 				fromItem := core.DerivesFrom(s.Val, func(x ssa.Value) bool { return x == ssa.Value(item) })
 				switch {
 				case isCtx(fv.Type()):
